@@ -13,6 +13,7 @@ mod hsim;
 mod ksim;
 mod lsim;
 mod model;
+mod net;
 mod oracle;
 mod props;
 mod psim;
@@ -139,7 +140,7 @@ fn check(prop: &'static str, tier: Tier) -> i32 {
         unknown += 1;
         let (min, tries) = minimise(&case, prop, clause, 400);
         // multi-threaded scenarios: pin the recorded (and shortened) scheduler choice list
-        let min = cases::pin_schedule(&min, clause);
+        let min = cases::pin_schedule(&min, prop, clause);
         let r = eval(&min);
         let mv = r
             .violations
